@@ -15,7 +15,7 @@ import (
 
 var c14aliasPool = []KV{
 	{"a", "fx/b/pkg"}, {"ab", "fx/ab"}, {"f", "fx/pk"}, {"fx", "fx/a"}, {"fmt", "fx/fmt"}, {"os", "fx/os"}, {"errors", "fx/errors"},
-	{"context", "fx/a/pkg"}, {"reflect", "fx/pk2"}, {"strconv", "fx/p-k.g"}, {"github.com", "fx/pk"}, {"p", "fx/pk2"}, {"err", "fx/errors"}, {"qq", `"fx/pk2"`},
+	{"context", "fx/a/pkg"}, {"reflect", "fx/pk2"}, {"strconv", "fx/p-k.g"}, {"github.com", "fx/pk"}, {"p", "fx/pk2"}, {"err", "fx/errors"}, {"qq", `"fx/pk2"`}, {"root", "fx"},
 }
 
 var c14positions = []struct{ id, sym string }{
